@@ -116,7 +116,7 @@ def main():
                 with open(mp) as f:
                     meta = json.load(f)
                 muts.append({'name': 'seeded/' + d, 'property': meta['property'], 'patch': os.path.join(sd, d, 'patch.diff'),
-                             'needs': meta.get('needs', '')})
+                             'needs': meta.get('needs', ''), 'out_of_scope': meta.get('out_of_scope')})
     if a.prop:
         muts = [m for m in muts if a.prop in (m['property'] if isinstance(m['property'], list) else [m['property']])]
     if a.only:
@@ -131,10 +131,13 @@ def main():
             print(f"{'CAUGHT' if r['caught'] else 'MISSED'}  {r['name']:<48} {r['property']}  "
                   f"tests={'pass' if tp else ('FAIL' if tp is False else '-')}  {r.get('error', '')} "
                   f"{'; '.join(c['what'] for c in r.get('checks', {}).values())[:160]}", flush=True)
+    scope = {m['name']: m.get('out_of_scope') for m in muts if isinstance(m, dict)}
     surviving = [r for r in results if r.get('tests_pass') is not False]
     summary = {'mutants': len(results), 'test_surviving': len(surviving),
                'caught': sum(1 for r in surviving if r['caught']),
-               'missed': [r['name'] for r in surviving if not r['caught']],
+               'missed': [r['name'] for r in surviving if not r['caught'] and not scope.get(r['name'])],
+               # changes a sub-agent offered that do not break the property as stated (reason in seeded/<id>/meta.json): not claimed
+               'not_caught_judged_out_of_scope': {r['name']: scope[r['name']] for r in surviving if not r['caught'] and scope.get(r['name'])},
                'killed_by_tests_only_reported': [r['name'] for r in results if r.get('tests_pass') is False]}
     if not a.only and not a.prop:
         with open(os.path.join(HERE, 'evidence', 'selftest.json'), 'w') as f:
